@@ -104,7 +104,40 @@ def run(tier, seed, rep=None, faults=()):
     if swalks:
         w = max(swalks, key=lambda w: len(w["steps"]))
         rep.sample(dict(kind="simulated walk", shape=w["shape"], actions=[s["a"] for s in w["steps"]]))
+
+    # direction B: executions of the real code (scripted sessions on every fit type and the repository's own fit tests), recorded at run
+    # time, validated against the property monitor spec/TraceNexus.tla
+    if not faults:
+        trace_stage(rep, tier)
     return rep
+
+
+def trace_stage(rep, tier):
+    import shutil
+    from ..core import ROOT
+    from ..trace import check as tc
+    out = os.path.join(ROOT, "build", "traces-%d" % os.getpid())
+    try:
+        results, summary = tc.run(tier, out, os.path.join(ROOT, "build"))
+        bad = [r for r in results if r["verdict"] == "machinery"]
+        if bad:
+            raise RuntimeError("trace validation could not be decided for %s:\n%s" % (bad[0]["name"], bad[0].get("detail")))
+        for r in results:
+            if r["verdict"] != "ok":
+                keep = os.path.join(ROOT, "replays", "C04-trace-" + os.path.basename(r["path"]))
+                os.makedirs(os.path.dirname(keep), exist_ok=True)
+                shutil.copy(r["path"], keep)
+                rep.violation("trace: %s fails in a recorded execution (spec/TraceNexus.tla)" % r["verdict"],
+                              dict(execution=r["name"], line=r["line"], node=r["node"], trace=keep,
+                                   how_to_read="line = first event at which the clause fails; last line of the trace file maps node ids to names"),
+                              dict(spec="TraceNexus", trace_file=keep, line=r["line"], node=r["node"], execution=r["name"]))
+        rep.coverage["trace_validation"] = dict(summary, traces=len(results), accepted=sum(1 for r in results if r["verdict"] == "ok"),
+                                                clauses=["ReadCorrect", "AtMostOnce", "NoSpurious"])
+        rep.coverage["traces_validated_against_impl"] = rep.coverage.get("traces_validated_against_impl", 0) + len(results)
+        longest = max(results, key=lambda r: r["events"])
+        rep.sample(dict(kind="recorded execution validated against TraceNexus.tla", execution=longest["name"], events=longest["events"], verdict=longest["verdict"]))
+    finally:
+        shutil.rmtree(out, ignore_errors=True)
 
 
 def replay(path, tier, seed):
